@@ -42,7 +42,9 @@ def verus(P, impls, u, prop="C05"):
     encs = [("", lambda v: "hv_usize(%dusize)" % v.idx)]
     if P.kind == "enum":
         encs += [("_pi", lambda v: "hv_isize(%disize)" % v.idx), ("_pu32", lambda v: "hv_u32(%du32)" % v.idx),
-                 ("_di", lambda v: "hv_isize(%s)" % ("(%disize)" % ds[v.idx]))]
+                 ("_di", lambda v: "hv_isize(%s)" % ("(%disize)" % ds[v.idx])), ("_pu16", lambda v: "hv_u16(%du16)" % v.idx)]
+        if len(P.variants) <= 256:
+            encs.append(("_pu8", lambda v: "hv_u8(%du8)" % v.idx))        # a one-byte tag is admissible only while it is injective
     first_arms = None
     for suffix, tagf in encs:
         arms = []
@@ -103,9 +105,9 @@ def kani(P, u, prop):
                 st.append("core::hash::Hash::hash(x%d, &mut r);" % f.idx)
         arms.append("%s => { %s %d }" % (P.pat(v, "x"), " ".join(st), v.idx))
     u.kani_oracle.append("""/// (variant index, data the compared fields feed through their own Hash / method)
-pub fn hash_key(x: &TI) -> (u8, crate::src::Rec) {
+pub fn hash_key(x: &TI) -> (u16, crate::src::Rec) {
     let mut r = crate::src::Rec::new();
-    let v: u8 = match x {
+    let v: u16 = match x {
         %s
     };
     (v, r)
